@@ -1457,7 +1457,7 @@ impl CodegenContext {
                 args: &[&Located<Expression>],
             ) -> EvaluationResult<Option<SymbolData>> {
                 let expr = args.first().unwrap();
-                match ctx.evaluate_expression(expr, false) {
+                match ctx.evaluate_defined_operand(expr) {
                     Ok(result) => {
                         if result.is_some() {
                             Ok(Some(1.into()))
